@@ -23,6 +23,9 @@ random generator reaches only rarely:
                     any subset of them cancelled in ONE step (outer-first / inner-first),
                     catches the cancellation and blocks again once or twice: every new wait
                     must be interrupted again                                       -> C03
+ shield_sandwich    chains of 4-5 scopes A > S(shield) > M.. > B with A and B cancelled (any order
+                    and timing), plain scopes or a task group with a child in between: B absorbs
+                    its own cancellation, nothing crosses the shield, code after B runs  -> C04
  scope_chains       exhaustive: scope chains of depth <= 3 x every shield assignment x every
                     subset of scopes cancelled x cancel timing x canceller          -> C04
  scope_histories    sequences of 1-6 scopes entered and left one after another on one task,
@@ -253,6 +256,45 @@ def swallow_and_reblock():  # noqa: ANN201
                                         {"tid": 2, "how": "start_soon", "body": sibling_body},
                                     ], [["cp", 1]]]]  # fmt: skip
                                     yield _p(cfg, root, agents, "fam:swallow_and_reblock")
+
+
+def shield_sandwich():  # noqa: ANN201
+    for cfg in CFGS:
+        for mids in (1, 2):
+            for a_when in ("pre", "before-S", 1, 2):  # when A is cancelled
+                for b_when in ("inside", 2, 3, "deadline"):  # when B is cancelled
+                    for via in ("scopes", "group"):
+                        agents = []
+                        b_dl = 1 if b_when == "deadline" else None
+                        inner: list = ([["cancel", "b"]] if b_when == "inside" else []) + [
+                            ["sleep", 3] if b_when == "deadline" else ["forever"]]  # fmt: skip
+                        body: list = [["scope", "b", False, b_dl, inner], ["cp", 2]]
+                        for i in range(mids):
+                            body = [["scope", f"m{i}", False, None, body + [["cp", 1]]]]
+
+                        if via == "group":
+                            child = {"tid": 1, "how": "start_soon", "body": body}
+                            body = [["group", 1, [child], [["cp", 1]]]]
+
+                        body = [["scope", "s", True, None, body + [["cp", 2]]]]
+                        pre = []
+                        if a_when == "pre":
+                            pre = [["prepare", "a"], ["cancel", "a"]]
+                            chain = [["scope", "a", False, None, body + [["cp", 1]]]]
+                        elif a_when == "before-S":
+                            chain = [["scope", "a", False, None, [["cancel", "a"]] + body + [["cp", 1]]]]
+                        else:
+                            chain = [["scope", "a", False, None, body + [["cp", 1]]]]
+                            agents.append({"at": a_when, "place": "after", "do": ["cancel", "a"]})
+
+                        if isinstance(b_when, int):
+                            agents.append({"at": b_when, "place": "after", "do": ["cancel", "b"]})
+
+                        root = [["group", 9, [
+                            {"tid": 5, "how": "start_soon", "body": pre + chain + [["cp", 2]]},
+                            {"tid": 6, "how": "start_soon", "body": [["cp", 6], ["sleep", 1]]},
+                        ], [["cp", 1]]]]  # fmt: skip
+                        yield _p(cfg, root, agents, "fam:shield_sandwich")
 
 
 def scope_chains():  # noqa: ANN201
